@@ -765,9 +765,87 @@ pub struct MatchOpts {
     pub replay: Option<u64>,
 }
 
+/// substring needles with a (possibly long) run of non-letters before their first letter, and haystacks made of near
+/// misses: copies of the needle with exactly one position changed, optionally followed by a real occurrence
+pub fn gen_near_miss(rng: &mut Rng) -> Case {
+    let cfg = gen_cfg(rng, false);
+    let plen = *rng.pick(&[0usize, 1, 2, 3, 7, 8, 15, 16, 17, 18, 24, 31, 32, 33, 40]);
+    let mut needle: Vec<char> = gen_text(rng, &['1', '2', '0', '-', '.', '/', ' ', '_', ':'], plen);
+    let letters = rng.range(if plen == 0 { 2 } else { 0 }, 6);
+    needle.extend(gen_text(rng, &['a', 'b', 'x', 'A', 'Z'], letters));
+    if rng.chance(1, 3) {
+        let k = rng.range(1, 4);
+        needle.extend(gen_text(rng, &['3', '-', 'c'], k));
+    }
+    if needle.is_empty() {
+        needle.push('1');
+    }
+    let k0 = rng.below(4);
+    let mut hay: Vec<char> = gen_text(rng, &['q', ' ', '1', '-'], k0);
+    for _ in 0..rng.range(1, 3) {
+        let mut miss = needle.clone();
+        let p = match rng.below(4) {
+            0 => rng.below(miss.len()),
+            1 => miss.len() - 1,
+            // behind the first 16 characters, in front of the first letter
+            _ => (16 + rng.below(plen.saturating_sub(16).max(1))).min(miss.len() - 1),
+        };
+        let replacement = *rng.pick(&['7', '+', 'q', 'B']);
+        miss[p] = if miss[p] == replacement { '#' } else { replacement };
+        hay.extend(miss);
+        let k1 = rng.below(3);
+        hay.extend(gen_text(rng, &[' ', '/', 'q'], k1));
+    }
+    if rng.coin() {
+        hay.extend(needle.iter());
+        let k2 = rng.below(3);
+        hay.extend(gen_text(rng, &[' ', 'q'], k2));
+    }
+    if rng.chance(1, 4) {
+        hay.push('\u{e9}');
+    }
+    normalize_needle(&mut needle, &cfg);
+    Case {
+        hay: Text::new(hay),
+        needle: Text::new(needle),
+        cfg,
+        profile: "near-miss",
+    }
+}
+
+/// a contiguous match long enough to saturate the 16 bit score, then one gap of 1..40 characters right before the last
+/// needle character(s): whatever happens to the score after saturation shows here
+pub fn gen_saturated_tail(rng: &mut Rng) -> Case {
+    let cfg = gen_cfg(rng, true);
+    let body_len = rng.range(2530, 4200);
+    let body: Vec<char> = match rng.below(3) {
+        0 => vec!['a'; body_len],
+        1 => (0..body_len).map(|i| if i % 7 == 6 { ' ' } else { 'a' }).collect(),
+        _ => (0..body_len).map(|i| ['a', 'b', 'c'][i % 3]).collect(),
+    };
+    let gap = rng.range(1, 40);
+    let filler = *rng.pick(&['x', 'y', '-']);
+    let tail: Vec<char> = rng.pick(&["z", "zq", "Z", "/z", "1"]).chars().collect();
+    let mut hay = body.clone();
+    hay.extend(std::iter::repeat(filler).take(gap));
+    hay.extend(tail.iter());
+    if rng.coin() {
+        hay.extend("xx".chars());
+    }
+    let mut needle = body;
+    needle.extend(tail.iter());
+    normalize_needle(&mut needle, &cfg);
+    Case {
+        hay: Text::new(hay),
+        needle: Text::new(needle),
+        cfg,
+        profile: "saturated-tail",
+    }
+}
+
 pub fn gen_case_for(idx: u64, rng: &mut Rng, pools: &Pools, props: &Props, long_only: bool) -> Case {
     if long_only {
-        return gen_big(rng, pools, true);
+        return if idx % 3 == 2 { gen_saturated_tail(rng) } else { gen_big(rng, pools, true) };
     }
     let score_only = props.c03 && !props.c01 && !props.c02 && !props.c05 && !props.c10;
     let anchored_heavy = props.c05 && !props.c01;
@@ -775,8 +853,11 @@ pub fn gen_case_for(idx: u64, rng: &mut Rng, pools: &Pools, props: &Props, long_
         0 => gen_big(rng, pools, false),
         32 if idx % 128 == 32 => gen_sparse_big(rng, pools),
         1 if idx % 256 == 1 => gen_big(rng, pools, true),
+        1 if idx % 256 == 129 => gen_saturated_tail(rng),
         2..=9 if !score_only => gen_placed(rng, pools),
-        10..=40 if anchored_heavy => gen_anchored(rng, pools),
+        36..=40 if anchored_heavy => gen_near_miss(rng),
+        10..=35 if anchored_heavy => gen_anchored(rng, pools),
+        18 => gen_near_miss(rng),
         10..=17 => gen_anchored(rng, pools),
         _ => gen_small(rng, pools, score_only),
     }
